@@ -117,3 +117,32 @@ pub fn probe(args: &[String]) -> i32 {
     }
     0
 }
+
+/// `mvh reseal <file>`: makes an edited image self-consistent again the way an adversary would - recomputes the TOC's own
+/// checksum (last 32 bytes of the TOC, hashed with the field zeroed), the footer's hash of the TOC bytes and the header's
+/// copy of the TOC checksum - so that the edit is reached by the decoders instead of being stopped by a checksum.
+/// Structure only (offsets from the header / footer layout); no memvid code is involved.
+pub fn reseal(args: &[String]) -> i32 {
+    let mut b = match std::fs::read(&args[0]) {
+        Ok(b) => b,
+        Err(_) => return 2,
+    };
+    let n = b.len();
+    if n < 4096 + 56 || &b[n - 56..n - 48] != b"MV2FOOT!" {
+        return 3;
+    }
+    let toc_len = u64::from_le_bytes(b[n - 48..n - 40].try_into().unwrap()) as usize;
+    if toc_len < 32 || toc_len > n - 56 {
+        return 3;
+    }
+    let (ta, tb) = (n - 56 - toc_len, n - 56);
+    for x in &mut b[tb - 32..tb] {
+        *x = 0;
+    }
+    let ck = *blake3::hash(&b[ta..tb]).as_bytes();
+    b[tb - 32..tb].copy_from_slice(&ck);
+    let fh = *blake3::hash(&b[ta..tb]).as_bytes();
+    b[n - 40..n - 8].copy_from_slice(&fh);
+    b[48..80].copy_from_slice(&ck);
+    std::fs::write(&args[0], &b).map(|_| 0).unwrap_or(2)
+}
